@@ -60,8 +60,8 @@ Theorem C19_helpers_by_type :
 Proof. intros v. repeat split. Qed.
 Print Assumptions C19_helpers_by_type.
 
-(* PyDict mode: int64 and *big.Int of one integer are the same Dict key: C07_equal_is_py_eq_partial
-   and C07_hash_respects_equal_partial (Props/C07.v) cover VInt z / VBig z. *)
+(* PyDict mode: int64 and *big.Int of one integer are the same Dict key: C07_equal_is_py_eq
+   and C07_hash_respects_equal (Props/C07.v) cover VInt z / VBig z. *)
 
 (* which payload opcode yields which result type is the content of the decoder model (handler);
    the payload-preservation half for the nine string opcodes is part of the round-trip work (C03)
